@@ -592,11 +592,46 @@ def race_extra(tier, rng, workdir):
         elif [o for o in r[2:]] != [o for o in tw[3:]]:
             failures.append(race_rec(c, r, 1, 106, "after the block / tx-thread race the node differs from 'block, then tx message' "
                                      "(unconfirmed set / later notifications): %s instead of %s" % (r[2:], tw[3:])))
-    return {"failures": failures, "evaluations": len(cases) + len(bcases),
+    # a double spend of a delivered tx handled by the tx thread while the block that confirms that tx is inside
+    # ProcessBlock (announcement being sent, tx repository locked): both threads must finish (lock order), the loser
+    # is reported unsafe / cancelled, the confirmed one is never reported safe after unsafe
+    ccfg = {"txs": [[1, [1000], 1], [2, [1000, 1001], 1], [3, [1001], 0], [4, [1010], 1]], "delay": DELAY}
+    ccases = []
+    for txids, inject, src in (([1], 2, 1), ([4, 1], 2, 1), ([1], 2, 0), ([2], 1, 1)):
+        first = 1 if inject == 2 else 2
+        ccases.append({"cfg": ccfg, "ops": [["setinsync", 1], ["tx", first, 0], ["race_block_conflict", 1, 0, txids, inject, src],
+                                            ["unconf"], ["block", 2, 1, [], 1], ["delaycheck"], ["unconf"]]})
+    cres, _ = vlib.run_harness("txflow", ccases, workdir, tag="conflictrace", timeout=300)
+    creached = 0
+    for c, r in zip(ccases, cres):
+        ob = r[2]
+        creached += ob[1] if len(ob) > 1 else 0
+        if ob[0] != 0 or (len(ob) > 2 and ob[2] == 2):
+            failures.append(race_rec(c, r, 2, 107, "block thread and tx thread wait for each other for ever (lock order): a conflicting "
+                                     "tx arrived while the block confirming the other tx was inside ProcessBlock (%s)" % ob[:4]))
+            continue
+        if len(ob) > 3 and (ob[2] != 0 or ob[3] != 0):
+            failures.append(race_rec(c, r, 2, 105, "block / conflicting tx race: an operation failed (%s)" % ob[:4]))
+            continue
+        seen_unsafe = set()
+        bad = None
+        for op, o in zip(c["ops"][1:], r[1:]):
+            evs = parse_events(o[4:] if op[0] == "race_block_conflict" else o[1:]) if op[0] in ("tx", "block", "race_block_conflict", "delaycheck") and o and o[0] == 0 else []
+            for e in evs:
+                if e["safe"] and e["unsafe"]:
+                    bad = (101, "safe and unsafe both set for tx %d" % e["t"])
+                elif e["unsafe"] or e["cancel"]:
+                    seen_unsafe.add(e["t"])
+                elif e["safe"] and e["t"] in seen_unsafe:
+                    bad = (103, "tx %d reported safe after it was reported unsafe" % e["t"])
+        if bad:
+            failures.append(race_rec(c, r, 2, bad[0], "block / conflicting tx race: " + bad[1]))
+    return {"failures": failures, "evaluations": len(cases) + len(bcases) + len(ccases),
             "coverage": {"reannounced_with_orphaned_proof_not_judged": stale_coverage(),
                          "rmw_race_scenarios": len(cases), "rmw_race_pause_point_reached": reached["race_delay"],
                          "send_race_pause_point_reached": reached["race_send"],
-                         "block_tx_race_scenarios": len(bcases), "block_tx_race_pause_point_reached": breached}}
+                         "block_tx_race_scenarios": len(bcases), "block_tx_race_pause_point_reached": breached,
+                         "block_conflict_race_scenarios": len(ccases), "block_conflict_race_pause_point_reached": creached}}
 
 
 def race_rec(c, r, step, code, what):
